@@ -305,10 +305,20 @@ func pidAlive(pid int) bool {
 	return err == nil || err == syscall.EPERM
 }
 
-// pidRunning is pidAlive minus zombies (a zombie has exited: only its parent has not reaped it).
+// pidRunning is pidAlive minus zombies (a zombie has exited: only its parent has not reaped it),
+// and only if the process still is one of our helpers (pids are recycled on a busy machine).
 func pidRunning(pid int) bool {
 	if !pidAlive(pid) {
 		return false
+	}
+	if cl, err := os.ReadFile(fmt.Sprintf("/proc/%d/cmdline", pid)); err == nil && len(cl) > 0 {
+		argv0 := string(cl)
+		if i := strings.IndexByte(argv0, 0); i >= 0 {
+			argv0 = argv0[:i]
+		}
+		if filepath.Base(argv0) != "vh" {
+			return false
+		}
 	}
 	data, err := os.ReadFile(fmt.Sprintf("/proc/%d/stat", pid))
 	if err != nil {
